@@ -95,7 +95,10 @@ class Gen:
         return r.choice(['.n("zz")', '.g(3)', '.pe(7)', '.t("zzz")', '.f("xx")', '.tn("bad")', '.c("zz")', '.typ({"neg":True})',
                          '.typ("neg")', '.dOpt({"year":False})', '.dOpt(3)', '.nat(3)', '.pro()', '.pos("mid")', '.aux("zz")',
                          '.ow("q")', '.maje(1)', '.n()', '.pe()', '.t()', '.poss()', '.typ({"zzz":True,"int":"zzz","mod":3})',
-                         '.dOpt({"zzz":True})', '.dOpt({"rtime":3})', '.nat("x")', '.add(3)', '.add(None)'])
+                         '.dOpt({"zzz":True})', '.dOpt({"rtime":3})', '.nat("x")', '.add(3)', '.add(None)',
+                         '.a(3)', '.b(None)', '.en(3)', '.ba(None)', '.tag(3)', '.tag("b",3)', '.dOpt({"mprecision":"x"})',
+                         '.dOpt({"mprecision":-1})', '.remove(0)', '.remove(1)', '.remove(7)', '.remove("x")', '.lier(3)',
+                         '.cap(3)', '.poss(3)', '.pro(3)', '.t(None)', '.a(["!"])', '.tag("b",{"x":3})'])
 
     def T(self, pos):
         r = self.rng
@@ -316,6 +319,8 @@ class Gen:
         s += self.typ()
         if r.random() < 0.05:
             s += ".add(%s%s)" % (self.T("Adv"), r.choice(["", ",0", ",1", ",5", ",-1"]))
+        if r.random() < 0.04:
+            s += ".remove(%d)" % r.choice([0, 1, 1, 2])
         return s + self.fmt_opts()
 
     def SP(self, d):
